@@ -380,7 +380,9 @@ func concScenario(sc concScen, scratch string) *vexp.Scenario {
 				if err != nil {
 					vrt.Broken("newWorld: %v", err)
 				}
-				if !w.resolve() {
+				ok := false
+				vrt.Quiet(func() { ok = w.resolve(); vrt.Sleep(time.Millisecond); vrt.WaitIdle() })
+				if !ok {
 					return
 				}
 				outs = make([]string, len(sc.Threads))
